@@ -210,8 +210,8 @@ IDENTS = ["Foo", "Bar", "Baz", "Count", "I", "J", "Value", "Item", "List", "Self
 TYPES = ["Integer", "string", "Boolean", "TObject", "TFoo", "Double", "Byte", "TList<Integer>", "TDictionary<string, TFoo>", "array of Integer",
          # every kind of inline type a field, variable, constant or parameter can have
          "class of TFoo", "^TFoo", "set of Byte", "set of (a, b)", "array[0..3] of Byte", "string[10]", "file of Byte", "TProc<Integer>",
-         "procedure(A: Integer) of object", "reference to function: Integer", "function(X: Integer): Boolean", "0..9", "TFoo.TNested", "array of array of string",
-         "type Integer"]
+         "procedure(A: Integer) of object", "reference to function: Integer", "function(X: Integer): Boolean", "0..9", "TFoo.TNested", "array of array of string"]
+# (not `type Integer`: the `type X` alias form is a type DECLARATION, not a variable's type)
 
 
 # type declarations that occupy one logical line (bodyless struct types, forward declarations, metaclasses,
